@@ -15,7 +15,7 @@ use std::collections::BTreeMap;
 use std::f64::consts::PI;
 
 pub fn prop() -> Prop {
-    Prop { id: "C04", corr, laws, extra, law_budget: (250, 2000) }
+    Prop { id: "C04", corr, laws, extra, law_budget: (250, 1800) }
 }
 
 // ------------------------------------------------------------------ style encoding
@@ -318,7 +318,8 @@ struct Poly {
     cum: Vec<f64>, // cumulative length at each vertex
     is_line: bool,
     curv_ok: bool, // min radius of curvature comfortably above w/2 (lines: true)
-    ctrl: Option<[Point; 4]>, // control points when the piece is a curve
+    ctrl: Option<[Point; 4]>, // control points when the piece is a curve the stroker offsets (not the do_linear route)
+    lin_ctrl: Option<[Point; 4]>, // control points of a cubic routed to do_linear (only used to place query points)
 }
 
 impl Poly {
@@ -330,7 +331,7 @@ impl Poly {
             s += (pts[i] - pts[i - 1]).hypot();
             cum.push(s);
         }
-        Poly { pts, cum, is_line, curv_ok, ctrl: None }
+        Poly { pts, cum, is_line, curv_ok, ctrl: None, lin_ctrl: None }
     }
     fn len(&self) -> f64 {
         *self.cum.last().unwrap()
@@ -415,6 +416,7 @@ fn straight_monotone(p: &[Point; 4]) -> bool {
 
 /// source segments exactly as the stroker walks the elements (degenerate elements are skipped)
 fn source_polys(els: &[PathEl], w: f64, eps: f64) -> Vec<Poly> {
+    let tol = eps / 0.02; // every caller flattens with eps = 0.02 * tolerance
     let mut v = Vec::new();
     let (mut last, mut start) = (Point::ORIGIN, Point::ORIGIN);
     let need = 0.5 * w * 1.3 + 4.0 * eps;
@@ -436,7 +438,11 @@ fn source_polys(els: &[PathEl], w: f64, eps: f64) -> Vec<Poly> {
                     let mut pts = vec![last];
                     flatten_cubic(&c, eps, &mut pts);
                     let mut po = Poly::new(pts, false, min_curv_radius(&c) > need);
-                    po.ctrl = Some(c);
+                    if ref_routes_linear(&CubicBez::new(c[0], c[1], c[2], c[3]), tol) {
+                        po.lin_ctrl = Some(c);
+                    } else {
+                        po.ctrl = Some(c);
+                    }
                     v.push(po);
                 }
                 last = p2;
@@ -452,7 +458,11 @@ fn source_polys(els: &[PathEl], w: f64, eps: f64) -> Vec<Poly> {
                         let mut pts = vec![last];
                         flatten_cubic(&c, eps, &mut pts);
                         let mut po = Poly::new(pts, false, min_curv_radius(&c) > need);
-                        po.ctrl = Some(c);
+                        if ref_routes_linear(&CubicBez::new(c[0], c[1], c[2], c[3]), tol) {
+                            po.lin_ctrl = Some(c);
+                        } else {
+                            po.ctrl = Some(c);
+                        }
                         v.push(po);
                     }
                 }
@@ -628,8 +638,15 @@ fn runaway_cubic(out: &[PathEl], src: &[Poly], reach: f64, band: f64) -> Option<
             PathEl::CurveTo(a, b, c) => {
                 let chord = (c - last).hypot();
                 let lim = reach + band + 2.0 * chord;
-                if (a - last).hypot().max((b - c).hypot()) > 2.0 * chord && (dist(a) > lim || dist(b) > lim) {
+                let (arm0, arm1) = ((a - last).hypot(), (b - c).hypot());
+                if arm0.max(arm1) > 2.0 * chord && (dist(a) > lim || dist(b) > lim) {
                     return Some((last, if dist(a) > lim { a } else { b }, c));
+                }
+                // a control arm longer than the whole width plus twice the chord: no offset of a piece of the path is
+                // shaped like that (a cubic spanning a half turn of radius r has arms 4r/3 on a chord 2r), wherever the
+                // control point happens to land
+                if arm0.max(arm1) > 2.0 * (reach + band) + 2.0 * chord {
+                    return Some((last, if arm0 > arm1 { a } else { b }, c));
                 }
                 last = c;
             }
@@ -783,9 +800,90 @@ fn tightness_near(src: &[Poly], q: Point, half: f64, lim: f64) -> (f64, bool, Op
     (best.1, tight_near, best_c)
 }
 
+/// a known cause demonstrated on the input: where (cusp point / affected end point), on which source cubic, for
+/// arm mismatches the gap between the offset end points, which cause, and the demonstration in words
+type Cause = (Point, [Point; 4], Option<f64>, &'static str, String);
+
+/// the cause (if any) that explains a failure at query point q. An exact or unrecognised cusp: q is within `near`
+/// of the cusp or q's nearest source point lies on the cusp's cubic (the offset fitted next to the cusp is what is
+/// wrong). An arm mismatch: q is within `near` of the affected end, or q's nearest source point lies on the affected
+/// cubic or on the segment joined to it at the affected end (whose offset starts from the misplaced point), and the
+/// failure is by no more than twice the gap between the offset end points.
+fn find_cause(causes: &[Cause], src: &[Poly], q: Point, near: f64, excess: f64) -> Option<(Point, &'static str, String)> {
+    if causes.is_empty() {
+        return None;
+    }
+    let mut np = 0;
+    let mut bd = f64::INFINITY;
+    for (i, s) in src.iter().enumerate() {
+        let d = s.dist(q).0;
+        if d < bd {
+            bd = d;
+            np = i;
+        }
+    }
+    let np = &src[np];
+    for (p, c, gap, name, why) in causes {
+        let close = (q - *p).hypot() <= near;
+        let on_cubic = np.ctrl == Some(*c);
+        let hit = match gap {
+            None => close || on_cubic,
+            Some(gap) => (close || on_cubic || (np.lin_ctrl.is_none() && (np.pts.first() == Some(p) || np.pts.last() == Some(p)))) && excess <= 2.0 * gap,
+        };
+        if hit {
+            return Some((*p, name, why.clone()));
+        }
+    }
+    None
+}
+
+/// the sharpest point of a cubic (smallest radius of curvature) and that radius
+fn cusp_tip(c: &[Point; 4]) -> (Point, f64) {
+    let n = 2000;
+    let mut best = (f64::INFINITY, 0.5);
+    for i in 0..=n {
+        let t = i as f64 / n as f64;
+        let r = curv_radius_at(c, t);
+        if r < best.0 {
+            best = (r, t);
+        }
+    }
+    (cubic_pt(c, best.1), best.0)
+}
+
+/// is the point of the cubic nearest to q within `win` of arc length from the cubic's sharpest point?
+fn within_tip_window(c: &[Point; 4], q: Point, win: f64) -> bool {
+    let n = 2000;
+    let (mut it, mut rt) = (0usize, f64::INFINITY);
+    let (mut iq, mut dq) = (0usize, f64::INFINITY);
+    let pts: Vec<Point> = (0..=n).map(|i| cubic_pt(c, i as f64 / n as f64)).collect();
+    for i in 0..=n {
+        let r = curv_radius_at(c, i as f64 / n as f64);
+        if r < rt {
+            rt = r;
+            it = i;
+        }
+        let d = (q - pts[i]).hypot();
+        if d < dq {
+            dq = d;
+            iq = i;
+        }
+    }
+    let (lo, hi) = (it.min(iq), it.max(iq));
+    let mut len = 0.0;
+    for i in lo..hi {
+        len += (pts[i + 1] - pts[i]).hypot();
+        if len > win {
+            return false;
+        }
+    }
+    true
+}
+
 /// Cause of C04-exact-cusp: the derivative of a source cubic vanishes (to 1e-6 of its largest control arm) at an
 /// interior parameter: the normal flips there, the two parallel curves swap sides discontinuously.
-fn exact_cusp(src: &[Poly]) -> Option<(Point, f64)> {
+fn exact_cusp(src: &[Poly]) -> Vec<(Point, [Point; 4], f64)> {
+    let mut found = Vec::new();
     for s in src {
         if let Some(c) = s.ctrl {
             let arm = (c[1] - c[0]).hypot().max((c[2] - c[1]).hypot()).max((c[3] - c[2]).hypot());
@@ -814,19 +912,20 @@ fn exact_cusp(src: &[Poly]) -> Option<(Point, f64)> {
             let t = 0.5 * (lo + hi);
             let sp = cubic_d1(&c, t).hypot();
             if t > 1e-3 && t < 1.0 - 1e-3 && sp <= 3e-5 * arm {
-                return Some((cubic_pt(&c, t), sp / arm));
+                found.push((cubic_pt(&c, t), c, sp / arm));
             }
         }
     }
-    None
+    found
 }
 
 /// Cause of C04-unrecognised-cusp: a source cubic has an interior point whose radius of curvature is below the
 /// regularisation dimension (tolerance/4) - a near-cusp that needs regularising - but the reference detect_cusp
 /// does not classify it (its control polygon is not of the self-crossing shape the test looks for), so the raw
 /// curve is offset across a half-turn of the normal within a stretch shorter than the tolerance.
-fn unrecognised_cusp(src: &[Poly], tol: f64) -> Option<(Point, f64)> {
+fn unrecognised_cusp(src: &[Poly], tol: f64) -> Vec<(Point, [Point; 4], f64)> {
     let dim = 0.25 * tol;
+    let mut found = Vec::new();
     for s in src {
         if let Some(c) = s.ctrl {
             let cb = CubicBez::new(c[0], c[1], c[2], c[3]);
@@ -854,11 +953,11 @@ fn unrecognised_cusp(src: &[Poly], tol: f64) -> Option<(Point, f64)> {
             let t = 0.5 * (lo + hi);
             let r = curv_radius_at(&c, t).min(best.0);
             if t > 1e-3 && t < 1.0 - 1e-3 && r < dim {
-                return Some((cubic_pt(&c, t), r));
+                found.push((cubic_pt(&c, t), c, r));
             }
         }
     }
-    None
+    found
 }
 
 /// Cause of C04-tight-curve-uncovered: q lies past the centre of curvature of a point of the source whose
@@ -918,6 +1017,40 @@ fn past_evolute(src: &[Poly], q: Point, half: f64, band: f64) -> bool {
     false
 }
 
+/// Reference copy (pinned tree) of the test in `StrokeCtx::do_cubic` that routes a cubic to `do_linear`
+/// (control points nearly collinear and not monotone along the reference chord). On that route the stroker
+/// neither regularises nor fits: none of the cusp / tip / tight-curve known findings applies to such a cubic.
+fn ref_routes_linear(c: &CubicBez, tolerance: f64) -> bool {
+    let chord = c.p3 - c.p0;
+    let mut chord_ref = chord;
+    let mut chord_ref_hypot2 = chord_ref.hypot2();
+    let d01 = c.p1 - c.p0;
+    if d01.hypot2() > chord_ref_hypot2 {
+        chord_ref = d01;
+        chord_ref_hypot2 = chord_ref.hypot2();
+    }
+    let d23 = c.p3 - c.p2;
+    if d23.hypot2() > chord_ref_hypot2 {
+        chord_ref = d23;
+        chord_ref_hypot2 = chord_ref.hypot2();
+    }
+    let p0 = c.p0.to_vec2().dot(chord_ref);
+    let p1 = c.p1.to_vec2().dot(chord_ref);
+    let p2 = c.p2.to_vec2().dot(chord_ref);
+    let p3 = c.p3.to_vec2().dot(chord_ref);
+    const ENDPOINT_D: f64 = 0.01;
+    if chord_ref_hypot2 <= tolerance.powi(2) || p3 <= p0 || p1 > p2 || p1 < p0 + ENDPOINT_D * (p3 - p0) || p2 > p3 - ENDPOINT_D * (p3 - p0) {
+        let x01 = d01.cross(chord_ref);
+        let x23 = d23.cross(chord_ref);
+        let x03 = chord.cross(chord_ref);
+        let thresh = tolerance.powi(2) * chord_ref_hypot2;
+        if x01 * x01 < thresh && x23 * x23 < thresh && x03 * x03 < thresh {
+            return true;
+        }
+    }
+    false
+}
+
 /// reference copy of the cubic arm of `PathSeg::tangents` as of the pinned tree
 fn ref_tangents(c: &CubicBez) -> (Vec2, Vec2) {
     const EPS: f64 = 1e-12;
@@ -942,8 +1075,9 @@ fn ref_tangents(c: &CubicBez) -> (Vec2, Vec2) {
 /// but longer than 1e-6 gives the direction of the cap / join at that end, while the offset curves are computed
 /// from the regularised cubic whose arm points elsewhere; the two directions differ by so much that the end of
 /// the offset curve is more than the band away from where the cap / join expects it.
-fn arm_mismatch(els: &[PathEl], tol: f64, half: f64, band: f64) -> Option<String> {
+fn arm_mismatch(els: &[PathEl], tol: f64, half: f64, band: f64) -> Vec<(Point, [Point; 4], f64, String)> {
     let dim = 0.25 * tol;
+    let mut found = Vec::new();
     let mut last = Point::ORIGIN;
     let mut start = Point::ORIGIN;
     for el in els {
@@ -973,6 +1107,9 @@ fn arm_mismatch(els: &[PathEl], tol: f64, half: f64, band: f64) -> Option<String
             }
         };
         if let Some(c) = cubic {
+            if ref_routes_linear(&c, tol) {
+                continue;
+            }
             let (rc, tag) = ref_regularize(&c, dim);
             if tag.contains("nudge") || tag.contains("thirds") {
                 let (a0, a1) = ref_tangents(&c);
@@ -982,14 +1119,14 @@ fn arm_mismatch(els: &[PathEl], tol: f64, half: f64, band: f64) -> Option<String
                     if la > 0.0 && lb > 0.0 {
                         let gap = half * ((a / la) - (b / lb)).hypot();
                         if gap > band {
-                            return Some(format!("{} arm of {:?}: raw direction {:?}, regularised direction {:?}, offset end points {} apart", which, c, a / la, b / lb, gap));
+                            found.push((if which == "start" { c.p0 } else { c.p3 }, [c.p0, c.p1, c.p2, c.p3], gap, format!("{} arm of {:?}: raw direction {:?}, regularised direction {:?}, offset end points {} apart", which, c, a / la, b / lb, gap)));
                         }
                     }
                 }
             }
         }
     }
-    None
+    found
 }
 
 /// the regularize branches (reference copy) of the curves of a path, for diagnostics
@@ -1034,14 +1171,16 @@ fn regularized_polys(els: &[PathEl], tol: f64, eps: f64) -> Vec<Poly> {
             PathEl::LineTo(p) => last = p,
             PathEl::QuadTo(p1, p2) => {
                 let c = raise(last, p1, p2);
-                let (rc, _) = ref_regularize(&CubicBez::new(c[0], c[1], c[2], c[3]), dim);
+                let cb = CubicBez::new(c[0], c[1], c[2], c[3]);
+                let (rc, _) = if ref_routes_linear(&cb, tol) { (cb, String::new()) } else { ref_regularize(&cb, dim) };
                 let mut pts = vec![rc.p0];
                 flatten_cubic(&[rc.p0, rc.p1, rc.p2, rc.p3], eps, &mut pts);
                 v.push(Poly::new(pts, false, true));
                 last = p2;
             }
             PathEl::CurveTo(p1, p2, p3) => {
-                let (rc, _) = ref_regularize(&CubicBez::new(last, p1, p2, p3), dim);
+                let cb = CubicBez::new(last, p1, p2, p3);
+                let (rc, _) = if ref_routes_linear(&cb, tol) { (cb, String::new()) } else { ref_regularize(&cb, dim) };
                 let mut pts = vec![rc.p0];
                 flatten_cubic(&[rc.p0, rc.p1, rc.p2, rc.p3], eps, &mut pts);
                 v.push(Poly::new(pts, false, true));
@@ -1121,8 +1260,8 @@ fn reach_factor(a: &[f64]) -> f64 {
 fn throttle(res: Option<(String, String)>) -> Option<(String, String)> {
     use std::sync::atomic::{AtomicUsize, Ordering};
     static COUNTS: [AtomicUsize; 7] = [AtomicUsize::new(0), AtomicUsize::new(0), AtomicUsize::new(0), AtomicUsize::new(0), AtomicUsize::new(0), AtomicUsize::new(0), AtomicUsize::new(0)];
-    const KNOWN: [&str; 7] = ["outline:runaway-cubic", "region:uncovered:past-evolute", "region:overreach:regularized-cusp", "region:uncovered:regularized-cusp",
-        "region:uncovered:short-arm-tangent-mismatch", "region:uncovered:exact-cusp", "region:uncovered:unrecognised-cusp"];
+    const KNOWN: [&str; 7] = ["outline:runaway-cubic:curve", "region:uncovered:past-evolute", "region:overreach:regularized-cusp", "region:uncovered:regularized-cusp",
+        "region:short-arm-tangent-mismatch", "region:exact-cusp", "region:unrecognised-cusp"];
     if let Some((c, _)) = &res {
         for (i, k) in KNOWN.iter().enumerate() {
             if c.starts_with(k) {
@@ -1135,8 +1274,59 @@ fn throttle(res: Option<(String, String)>) -> Option<(String, String)> {
     res
 }
 
+/// class of a wild outline: the known finding (runaway cubic next to a hairpin) only when the path has a curve
+/// that the stroker offsets; for polylines and for cubics on the do_linear route (reference copy of the routing
+/// test) the outline consists of lines and join / cap arcs and a wild outline is a violation
+fn runaway_class(inst: &Inst) -> String {
+    let mut last = Point::ORIGIN;
+    let mut start = Point::ORIGIN;
+    let mut offset_curve = false;
+    for el in &inst.els {
+        match *el {
+            PathEl::MoveTo(p) => {
+                start = p;
+                last = p;
+            }
+            PathEl::LineTo(p) => last = p,
+            PathEl::QuadTo(a, b) => {
+                let c = raise(last, a, b);
+                offset_curve |= !ref_routes_linear(&CubicBez::new(c[0], c[1], c[2], c[3]), inst.tol);
+                last = b;
+            }
+            PathEl::CurveTo(a, b, c) => {
+                offset_curve |= !ref_routes_linear(&CubicBez::new(last, a, b, c), inst.tol);
+                last = c;
+            }
+            PathEl::ClosePath => last = start,
+        }
+    }
+    let dashed = if inst.dashes.is_empty() { "" } else { ":dashed" };
+    if offset_curve {
+        format!("outline:runaway-cubic:curve{}", dashed)
+    } else {
+        format!("outline:wild:{}{}", if is_polyline(&inst.els) { "polyline" } else { "collinear" }, dashed)
+    }
+}
+
 fn law_region(a: &[f64]) -> Option<(String, String)> {
-    throttle(region_core(decode(a), None))
+    let res = region_core(decode(a), None);
+    if std::env::var("C04_LINREPORT").is_ok() {
+        // development aid: failures on inputs that contain a cubic on the do_linear route
+        if let Some((c, d)) = &res {
+            let inst = decode(a);
+            let src = source_polys(&inst.els, inst.a[0], 0.02 * inst.tol);
+            if src.iter().any(|s| s.lin_ctrl.is_some()) {
+                eprintln!("LINROUTE {} {}", c, d);
+            }
+        }
+    }
+    throttle(res)
+}
+
+/// the region law on the collinear family (lines and cubics on the do_linear route only): no known finding applies
+/// there, so whatever fails is reported under a class of its own that no known: line matches, unthrottled
+fn law_region_collinear(a: &[f64]) -> Option<(String, String)> {
+    region_core(decode(a), None).map(|(c, d)| (format!("collinear-route:{}", c), d))
 }
 
 /// the same judgement at one given query point: args = [qx, qy] ++ the arguments of the region law
@@ -1152,7 +1342,7 @@ fn region_core(inst: Inst, fixed_q: Option<Point>) -> Option<(String, String)> {
     }
     if let Some(p) = wild_control_point(&inst.els, out.elements(), &inst.a) {
         return fail(
-            &format!("outline:runaway-cubic:{}{}", if is_polyline(&inst.els) { "polyline" } else { "curve" }, if inst.dashes.is_empty() { "" } else { ":dashed" }),
+            &runaway_class(&inst),
             format!("outline control point {:?} is absurdly far from the path; {}", p, describe(&inst)),
         );
     }
@@ -1174,20 +1364,23 @@ fn region_core(inst: Inst, fixed_q: Option<Point>) -> Option<(String, String)> {
     let all_round = inst.a[1] as i32 == 2 && inst.a[3] as i32 == 2 && inst.a[4] as i32 == 2;
     if let Some((a, c, b)) = runaway_cubic(out.elements(), &src, reach, band) {
         return fail(
-            &format!("outline:runaway-cubic:{}{}", if is_polyline(&inst.els) { "polyline" } else { "curve" }, if inst.dashes.is_empty() { "" } else { ":dashed" }),
+            &runaway_class(&inst),
             format!("the outline contains the cubic {:?} .. {:?} with control point {:?}, out of proportion to its chord and far from the path; {}", a, b, c, describe(&inst)),
         );
     }
-    if let Some(why) = arm_mismatch(&src_els, inst.tol, half, band) {
-        // judged only by the other laws: the whole neighbourhood of that end is unreliable
-        return probe_instance(&inst, &src, &polys, half, band, eps, scale, "region:uncovered:short-arm-tangent-mismatch", why, fixed_q);
+    // points of the source around which an instance-level known cause is demonstrated (never on the do_linear route)
+    let mut cause_pts: Vec<Cause> = Vec::new();
+    for (pt, c, gap, why) in arm_mismatch(&src_els, inst.tol, half, band) {
+        cause_pts.push((pt, c, Some(gap), "short-arm-tangent-mismatch", why));
     }
-    if let Some((cp, rel)) = exact_cusp(&src) {
-        return probe_instance(&inst, &src, &polys, half, band, eps, scale, "region:uncovered:exact-cusp", format!("the derivative of a source cubic vanishes at {:?} (speed / arm = {:e})", cp, rel), fixed_q);
+    for (cp, c, rel) in exact_cusp(&src) {
+        cause_pts.push((cp, c, None, "exact-cusp", format!("the derivative of a source cubic vanishes at {:?} (speed / arm = {:e})", cp, rel)));
     }
-    if let Some((cp, rad)) = unrecognised_cusp(&src, inst.tol) {
-        return probe_instance(&inst, &src, &polys, half, band, eps, scale, "region:uncovered:unrecognised-cusp", format!("radius of curvature {:e} < tolerance/4 at {:?} of a cubic that detect_cusp does not classify", rad, cp), fixed_q);
+    for (cp, c, rad) in unrecognised_cusp(&src, inst.tol) {
+        cause_pts.push((cp, c, None, "unrecognised-cusp", format!("radius of curvature {:e} < tolerance/4 at {:?} of a cubic that detect_cusp does not classify", rad, cp)));
     }
+    // how far beyond the band a Loop-regularised tip may be off and still be attributed (observed on the pinned tree: 0.2 * width/2)
+    let loop_bound = (30.0 * inst.tol).max(0.25 * half);
     // "curve-tight": some curved source segment has a radius of curvature not comfortably above width/2
     // (there the parallel-curve construction is not the exact sweep; only round joins + caps reach such input)
     let kind = if is_polyline(&inst.els) { "polyline" } else if src.iter().all(|s| s.curv_ok) { "curve" } else { "curve-tight" };
@@ -1205,7 +1398,7 @@ fn region_core(inst: Inst, fixed_q: Option<Point>) -> Option<(String, String)> {
     // the sharpest points of the curved pieces (hairpin tips, cusps): query points are also placed around them
     let mut tips: Vec<(Point, Vec2)> = Vec::new();
     for s in &src {
-        if let Some(c) = s.ctrl {
+        if let Some(c) = s.ctrl.or(s.lin_ctrl) {
             let mut best = (f64::INFINITY, 0.5);
             for i in 0..=400 {
                 let t = i as f64 / 400.0;
@@ -1224,6 +1417,18 @@ fn region_core(inst: Inst, fixed_q: Option<Point>) -> Option<(String, String)> {
                 let dt = 1e-3;
                 let dir = cubic_pt(&c, (t + dt).min(1.0)) - cubic_pt(&c, (t - dt).max(0.0));
                 tips.push((cubic_pt(&c, t), dir));
+            }
+        }
+    }
+    for s in &src {
+        if let Some(c) = s.lin_ctrl {
+            // turning points of a collinear cubic: local minima of the speed
+            let sp: Vec<f64> = (0..=400).map(|i| cubic_d1(&c, i as f64 / 400.0).hypot()).collect();
+            let mx = sp.iter().cloned().fold(0.0, f64::max);
+            for i in 1..400 {
+                if sp[i] <= sp[i - 1] && sp[i] <= sp[i + 1] && sp[i] < 0.05 * mx {
+                    tips.push((cubic_pt(&c, i as f64 / 400.0), Vec2::ZERO));
+                }
             }
         }
     }
@@ -1308,24 +1513,31 @@ fn region_core(inst: Inst, fixed_q: Option<Point>) -> Option<(String, String)> {
             }
             let style = format!("{}-{}-{}{}", jname(inst.a[1]), cname(inst.a[3]), cname(inst.a[4]), dashed);
             let desc = format!("point {:?} at distance {} from the path (width/2 = {}, band {}) has winding number 0 in the outline; {} regularize=[{}]", q, dmin, half, band, describe(&inst), regularize_tags(&src_els, inst.tol));
-            let slack = std::env::var("C04_SLACK").ok().and_then(|v| v.parse::<f64>().ok()).unwrap_or(12.0) * inst.tol;
+            let slack = 12.0 * inst.tol;
             let (rad_near, tight_other, near_c) = tightness_near(&src, q, half, half + band);
+            let near_cause = find_cause(&cause_pts, &src, q, 2.0 * reach + band, half - band - dmin);
             let near_tag = near_c.map(|c| ref_regularize(&CubicBez::new(c[0], c[1], c[2], c[3]), 0.25 * inst.tol).1).unwrap_or_default();
-            let cause = if past_evolute(&src, q, half, band) {
-                Some(("past-evolute", "q lies past the centre of curvature of a source point whose normal reaches it".to_string()))
+            let in_window = near_c.map(|c| within_tip_window(&c, q, half + band)).unwrap_or(false);
+            if std::env::var("C04_DEBUG").is_ok() {
+                eprintln!("CLS rad_near={} tight_other={} near_tag={} in_window={} short={} tol", rad_near, tight_other, near_tag, in_window, (half - band - dmin) / inst.tol);
+            }
+            let cause: Option<(String, String)> = if let Some((p, c, why)) = near_cause.clone() {
+                Some((format!("{}:uncovered", c), format!("cause demonstrated at {:?}: {}", p, why)))
+            } else if past_evolute(&src, q, half, band) {
+                Some(("uncovered:past-evolute".into(), "q lies past the centre of curvature of a source point whose normal reaches it".to_string()))
             } else if rad_near >= half && tight_other {
-                Some(("past-evolute", "q's nearest source point is regular but a stretch with radius of curvature below width/2 is within reach of q (its inner parallel curve is a swallowtail)".to_string()))
-            } else if rad_near < half {
+                Some(("uncovered:past-evolute".into(), "q's nearest source point is regular but a stretch with radius of curvature below width/2 is within reach of q (its inner parallel curve is a swallowtail)".to_string()))
+            } else if rad_near < half && in_window {
                 // the tip of a hairpin / cusp: the stroker offsets the (reference-)regularised cubic and fits across the swing
                 let reg = regularized_polys(&src_els, inst.tol, eps);
                 let dreg = reg.iter().fold(f64::INFINITY, |m, s| m.min(s.dist(q).0));
-                let short = (half - band - dmin) / inst.tol;
+                let short = half - band - dmin;
                 if dreg > half - band - slack {
-                    Some(("regularized-cusp", format!("q is {} from the regularised curve: not (robustly) inside its stroke; short by {:.2} tolerances beyond the band; tip of a [{}] cubic", dreg, short, near_tag)))
-                } else if near_tag.contains("loop") {
-                    Some(("regularized-cusp", "q is at the tip of a near-cusp that regularize treats as a Loop (control arms pushed outwards by tolerance/4 each)".to_string()))
-                } else if near_tag.contains("double-inflection") && short <= 30.0 {
-                    Some(("regularized-cusp", format!("q is at the tip of a near-cusp that regularize treats as a double inflection, short by {:.2} <= 30 tolerances beyond the band", short)))
+                    Some(("uncovered:regularized-cusp".into(), format!("q is {} from the regularised curve: not (robustly) inside its stroke; short by {:.2} tolerances beyond the band; tip of a [{}] cubic", dreg, short / inst.tol, near_tag)))
+                } else if near_tag.contains("loop") && short <= loop_bound {
+                    Some(("uncovered:regularized-cusp".into(), format!("q is at the tip (within width/2 of arc length) of a near-cusp that regularize treats as a Loop, short by {:.2} tolerances beyond the band (bound {:.2})", short / inst.tol, loop_bound / inst.tol)))
+                } else if near_tag.contains("double-inflection") && short <= 30.0 * inst.tol {
+                    Some(("uncovered:regularized-cusp".into(), format!("q is at the tip of a near-cusp that regularize treats as a double inflection, short by {:.2} <= 30 tolerances beyond the band", short / inst.tol)))
                 } else {
                     None
                 }
@@ -1335,7 +1547,7 @@ fn region_core(inst: Inst, fixed_q: Option<Point>) -> Option<(String, String)> {
             if let Some((c, why)) = cause {
                 // known cause demonstrated: keep looking for a failure that is not explained
                 if known_hit.is_none() {
-                    known_hit = Some((format!("region:uncovered:{}:{}", c, style), format!("({}) {}", why, desc)));
+                    known_hit = Some((format!("region:{}:{}", c, style), format!("({}) {}", why, desc)));
                 }
                 continue;
             }
@@ -1349,19 +1561,31 @@ fn region_core(inst: Inst, fixed_q: Option<Point>) -> Option<(String, String)> {
             let reg = regularized_polys(&src_els, inst.tol, eps);
             let dreg = reg.iter().fold(f64::INFINITY, |m, s| m.min(s.dist(q).0));
             let (rad_near, _, near_c) = tightness_near(&src, q, half, 0.0);
+            let near_cause = find_cause(&cause_pts, &src, q, 2.0 * reach + band, dmin - reach - band);
             let near_tag = near_c.map(|c| ref_regularize(&CubicBez::new(c[0], c[1], c[2], c[3]), 0.25 * inst.tol).1).unwrap_or_default();
-            // a Loop-regularised tip within two reaches of q: its overshoot can be what covers q
-            let loop_tip_near = src.iter().any(|s| match s.ctrl {
-                Some(c) if ref_regularize(&CubicBez::new(c[0], c[1], c[2], c[3]), 0.25 * inst.tol).1.contains("loop") => {
-                    let n = s.pts.len() - 1;
-                    s.pts.iter().enumerate().any(|(i, p)| (q - *p).hypot() <= 2.0 * reach + band && curv_radius_at(&c, i as f64 / n as f64) < half)
-                }
-                _ => false,
-            });
-            let over = (dmin - reach - band) / inst.tol;
-            if dreg < reach + band || (rad_near < half && (dreg < reach + band + 8.0 * inst.tol || near_tag.contains("loop") || (near_tag.contains("double-inflection") && over <= 30.0))) || loop_tip_near {
+            let in_window = near_c.map(|c| within_tip_window(&c, q, half + band)).unwrap_or(false);
+            let over = dmin - reach - band;
+            // the tip of a Loop-regularised cubic close enough for its (bounded) overshoot to be what covers q
+            let loop_tip_near = over <= loop_bound
+                && src.iter().any(|s| match s.ctrl {
+                    Some(c) if ref_regularize(&CubicBez::new(c[0], c[1], c[2], c[3]), 0.25 * inst.tol).1.contains("loop") => {
+                        let (tp, rad) = cusp_tip(&c);
+                        rad < half && (q - tp).hypot() <= reach + band + loop_bound
+                    }
+                    _ => false,
+                });
+            let tip = rad_near < half
+                && in_window
+                && (dreg < reach + band + 8.0 * inst.tol || (near_tag.contains("loop") && over <= loop_bound) || (near_tag.contains("double-inflection") && over <= 30.0 * inst.tol));
+            if let Some((p, c, why)) = near_cause.clone() {
                 if known_hit.is_none() {
-                    known_hit = Some((format!("region:overreach:regularized-cusp:{}", style), format!("(q is {} from the regularised curve; nearest source point has radius of curvature {}) {}", dreg, rad_near, desc)));
+                    known_hit = Some((format!("region:{}:overreach:{}", c, style), format!("(cause demonstrated at {:?}: {}) {}", p, why, desc)));
+                }
+                continue;
+            }
+            if dreg < reach + band || tip || loop_tip_near {
+                if known_hit.is_none() {
+                    known_hit = Some((format!("region:overreach:regularized-cusp:{}", style), format!("(q is {} from the regularised curve; nearest source point has radius of curvature {}; over by {:.2} tolerances) {}", dreg, rad_near, over / inst.tol, desc)));
                 }
                 continue;
             }
@@ -1369,24 +1593,6 @@ fn region_core(inst: Inst, fixed_q: Option<Point>) -> Option<(String, String)> {
         }
     }
     known_hit
-}
-
-/// an input on which an instance-level known cause is demonstrated: report the known finding only if the fill really
-/// is wrong somewhere within width/2 - band of the path (round joins and caps: every such point must be covered)
-fn probe_instance(inst: &Inst, src: &[Poly], polys: &[Vec<Point>], half: f64, band: f64, eps: f64, scale: f64, class: &str, why: String, fixed_q: Option<Point>) -> Option<(String, String)> {
-    let mut r = Rng::new(inst.qseed ^ 0xa53);
-    for _ in 0..inst.nq.max(1) {
-        let s = &src[r.below(src.len() as u64) as usize];
-        let i = 1 + r.below((s.pts.len() - 1) as u64) as usize;
-        let base = s.pts[i - 1].lerp(s.pts[i], r.unit());
-        let th = r.uniform(0.0, 2.0 * PI);
-        let q = fixed_q.unwrap_or(base + Vec2::new(th.cos(), th.sin()) * r.uniform(0.0, (half - band).max(0.0)));
-        let (wn, dout) = winding_and_dist(polys, q);
-        if dout > 2.0 * eps + 1e-12 * scale && wn == 0 && half > band {
-            return fail(class, format!("point {:?} within width/2 - band of the path has winding number 0; cause: {}; {}", q, why, describe(inst)));
-        }
-    }
-    None
 }
 
 /// every contour starts with MoveTo and returns to its starting point (ClosePath, or a final point equal to
@@ -1588,7 +1794,7 @@ fn outline_bounded_core(a: &[f64]) -> Option<(String, String)> {
     if !all_finite(out.elements()) {
         return None;
     }
-    let cls = format!("outline:runaway-cubic:{}{}", if is_polyline(&inst.els) { "polyline" } else { "curve" }, if inst.dashes.is_empty() { "" } else { ":dashed" });
+    let cls = runaway_class(&inst);
     if let Some(p) = wild_control_point(&inst.els, out.elements(), &inst.a) {
         return fail(&cls, format!("outline control point {:?} is absurdly far from the path; {}", p, describe(&inst)));
     }
@@ -1866,6 +2072,62 @@ fn g_region_cusp(r: &mut Rng) -> Vec<f64> {
     encode(&st, qs, nq, 0.0, &[], &els)
 }
 
+/// cubics whose control points lie on one line (to within less than the tolerance): the stroker's `do_linear`
+/// route. Doubling back once or twice, first / last control arm longer than the chord, coincident points.
+/// No known class applies on this route: every unexplained point is a violation.
+fn gen_collinear(r: &mut Rng) -> (Vec<f64>, Vec<PathEl>) {
+    let len = *r.pick(&[1.0, 3.0, 10.0, 30.0]) * r.uniform(0.7, 1.4);
+    let ang = r.uniform(0.0, 2.0 * PI);
+    let d = Vec2::new(ang.cos(), ang.sin()) * len;
+    let nrm = Vec2::new(-ang.sin(), ang.cos());
+    let p0 = Point::new(r.uniform(-5.0, 5.0), r.uniform(-5.0, 5.0));
+    let (s1, s2, s3) = match r.below(8) {
+        0 => (r.uniform(-1.5, -0.1), r.uniform(0.5, 2.0), r.uniform(0.1, 0.9)),   // back, far forward, back: two cusps
+        1 => (r.uniform(1.2, 3.0), r.uniform(0.3, 1.5), r.uniform(0.1, 1.0)),     // first arm longer than the chord
+        2 => (r.uniform(-1.0, 0.5), r.uniform(-2.0, 0.5), r.uniform(0.1, 1.0)),   // last arm longer than the chord
+        3 => (r.uniform(0.5, 2.0), r.uniform(-0.5, 0.5), r.uniform(0.3, 1.0)),
+        4 => (r.uniform(-0.5, 0.5), r.uniform(0.8, 1.8), 1.0),
+        5 => (0.0, r.uniform(1.1, 2.0), 1.0),                                      // p1 = p0, overshoot
+        6 => (r.uniform(-1.0, 0.0), 1.0, 1.0),                                     // p2 = p3, start backwards
+        _ => (r.uniform(-2.0, 3.0), r.uniform(-2.0, 3.0), r.uniform(-2.0, 3.0)),
+    };
+    let w = (len * log_uniform(r, 0.05, 1.0)).clamp(0.05, 10.0);
+    let tol = log_uniform(r, 1e-3, 0.3).min(0.1 * w).max(1e-3);
+    // off the line by less than the tolerance (still the do_linear route), or exactly on it
+    let off = if r.chance(1, 3) { tol * r.uniform(-0.4, 0.4) } else { 0.0 };
+    let off2 = if r.chance(1, 3) { tol * r.uniform(-0.4, 0.4) } else { 0.0 };
+    let (p1, p2, p3) = (p0 + d * s1 + nrm * off, p0 + d * s2 + nrm * off2, p0 + d * s3);
+    let mut els = vec![PathEl::MoveTo(p0)];
+    if r.chance(1, 4) {
+        let a = p0 - Vec2::new((ang + 0.9).cos(), (ang + 0.9).sin()) * (len * r.uniform(0.3, 1.0));
+        els = vec![PathEl::MoveTo(a), PathEl::LineTo(p0)];
+    }
+    if p3 != p0 {
+        els.push(PathEl::CurveTo(p1, p2, p3));
+    } else {
+        els.push(PathEl::LineTo(p0 + d));
+    }
+    if r.chance(1, 4) {
+        let last = if p3 != p0 { p3 } else { p0 + d };
+        els.push(PathEl::LineTo(last + Vec2::new((ang - 1.1).cos(), (ang - 1.1).sin()) * (len * r.uniform(0.3, 1.0))));
+    }
+    let st = if r.chance(2, 3) {
+        vec![w, 2.0, 4.0, 2.0, 2.0, tol]
+    } else {
+        let mut st = law_style(r);
+        st[0] = w;
+        st[5] = tol;
+        st
+    };
+    (st, els)
+}
+
+fn g_region_collinear(r: &mut Rng) -> Vec<f64> {
+    let (st, els) = gen_collinear(r);
+    let (qs, nq) = (r.next_u64(), 70 + r.below(40) as usize);
+    encode(&st, qs, nq, 0.0, &[], &els)
+}
+
 fn nq_for(r: &mut Rng) -> usize {
     60 + r.below(40) as usize
 }
@@ -1996,6 +2258,7 @@ fn laws() -> Vec<Law> {
         Law { name: "region_smooth", gen: g_region_smooth, check: law_region, weight: 3 },
         Law { name: "region_round", gen: g_region_round, check: law_region, weight: 3 },
         Law { name: "region_cusp", gen: g_region_cusp, check: law_region, weight: 6 },
+        Law { name: "region_collinear", gen: g_region_collinear, check: law_region_collinear, weight: 3 },
         Law { name: "region_dashed", gen: g_region_dashed, check: law_region, weight: 1 },
         Law { name: "region_at_point", gen: g_region_at, check: law_region_at, weight: 1 },
         Law { name: "closed_finite", gen: g_closed_finite, check: law_closed_finite, weight: 6 },
@@ -2068,6 +2331,23 @@ fn extra(r: &mut Rng, thorough: bool, o: &mut Out) {
             o.violation(&class, desc, format!("{{\"law\":\"region_cusp\",\"args\":{}}}", crate::util::fmt_fs(&a)));
         }
     }
+    // regressions: collinear cubics on the do_linear route (seeded changes to StrokeCtx::do_linear / do_cubic):
+    // doubling back twice; first control arm longer than the chord. The unchanged tree strokes them correctly.
+    {
+        let c = |a: (f64, f64), b: (f64, f64), c: (f64, f64), d: (f64, f64)| [PathEl::MoveTo(Point::new(a.0, a.1)), PathEl::CurveTo(Point::new(b.0, b.1), Point::new(c.0, c.1), Point::new(d.0, d.1))];
+        for (w, els) in [
+            (4.0, c((0.0, 0.0), (-10.0, 0.0), (14.0, 0.0), (3.0, 0.0))),
+            (3.0, c((1.0, 10.0), (1.0, 0.0), (1.0, 20.0), (1.0, 10.0))),
+            (3.0, c((0.0, 10.0), (-6.0, 0.0), (6.0, 20.0), (0.6, 11.0))),
+            (2.0, c((0.0, 0.0), (18.0, 24.0), (9.0, 12.0), (6.0, 8.0))),
+        ] {
+            let a = encode(&[w, 2.0, 4.0, 2.0, 2.0, 0.01], 777, 400, 0.0, &[], &els);
+            o.oracle_eval("region_collinear");
+            if let Some((class, desc)) = law_region_collinear(&a) {
+                o.violation(&class, desc, format!("{{\"law\":\"region_collinear\",\"args\":{}}}", crate::util::fmt_fs(&a)));
+            }
+        }
+    }
     // witness of the inner-join defect (repaired by proposed_fixes/C04-inner-join-pivot.diff):
     // M(0,0) L(1,0) L(1,10), width 4, bevel, butt: (-0.5, 0.25) is 1.5 from the interior point (1, 0.25)
     {
@@ -2105,13 +2385,13 @@ fn extra(r: &mut Rng, thorough: bool, o: &mut Out) {
             vec![PathEl::MoveTo(Point::new(4.565792371093728, 1.177169700155142)), PathEl::LineTo(Point::new(0.9507811342691959, 2.789052816943417)),
                  PathEl::CurveTo(Point::new(4.26392518068368, 4.633024882441313), Point::new(1.3677931111350223, -1.8559245297297506), Point::new(3.554624582939456, 4.742761446527548)),
                  PathEl::LineTo(Point::new(4.271678933757974, 9.997012060321804))], o);
-        at("C04-unrecognised-cusp", "region:uncovered:unrecognised-cusp", (-5.20413822695242, 0.1090127940283), [1.413459109700561, 2.0, 4.0, 2.0, 2.0, 0.00778829969079009],
+        at("C04-unrecognised-cusp", "region:unrecognised-cusp", (-5.20413822695242, 0.1090127940283), [1.413459109700561, 2.0, 4.0, 2.0, 2.0, 0.00778829969079009],
             cub((-4.7054032645368, -0.7271798595249628), (-5.633765030884642, -0.08978645310175293), (-4.093026857342927, 0.05168164555888333), (-3.156971929117649, -9.219458667630754), false), o);
         at("C04-cusp-tip-short", "region:uncovered:regularized-cusp", (97.63251517702321, -0.23636747138676206), [2.641168287167404, 2.0, 4.0, 2.0, 2.0, 0.017678796959989657],
             cub((-0.05711805948388182, -3.4302413087626116), (199.8748688960256, 1.785177372608283), (27.698872612477857, -2.156844534475717), (27.0393911765674, -4.050032572791746), false), o);
-        at("C04-short-arm-tangent-mismatch", "region:uncovered:short-arm-tangent-mismatch", (1.6437865968322547, -2.1086731508489813), [10.0, 2.0, 4.0, 2.0, 2.0, 0.0017],
+        at("C04-short-arm-tangent-mismatch", "region:short-arm-tangent-mismatch", (1.6437865968322547, -2.1086731508489813), [10.0, 2.0, 4.0, 2.0, 2.0, 0.0017],
             cub((1.6951992645032563, -2.091204299996441), (1.6949764177316848, -2.091208694175947), (9.855149038048495, -0.545197359770941), (41.779410760159024, -6.35659470420728), false), o);
-        at("C04-exact-cusp", "region:uncovered:exact-cusp", (-4.098747237573293, -3.044811972943113), [4.569130538947639, 2.0, 3.9578143732688287, 2.0, 2.0, 0.028255313886926862],
+        at("C04-exact-cusp", "region:exact-cusp", (-4.098747237573293, -3.044811972943113), [4.569130538947639, 2.0, 3.9578143732688287, 2.0, 2.0, 0.028255313886926862],
             cub((-7.12468275121468, -9.842733580771599), (-3.5780006572324767, -0.06767752923288128), (-10.325368753033725, -6.469049532870974), (-0.37731465541343034, -3.441361577133506), false), o);
     }
     // the collinear cubic A,B,A,B named in DESIGN.md section 5 (#8): random instances, counted only
